@@ -3,20 +3,141 @@ import Preflate.Model.ChainBounds
 namespace Preflate.Proofs
 open Preflate Preflate.Chains
 
+/-- one `HashChain::update_hash` call changes `totalShift` by exactly the reshift test -/
+theorem update_totalShift (p : Params) (plain : Array Nat) (c : Chain) (pos0 len : Nat) :
+    (Chain.update p plain c pos0 len).totalShift = shiftStep c.totalShift pos0 := by
+  unfold Chain.update shiftStep
+  by_cases h : (pos0 : Int) - c.totalShift ≥ 0xfe08 <;> by_cases h3 : p.hashAlg = 3 <;> simp [h, h3]
+
 /-- the abstraction is faithful: `policyUpdate` changes `totalShift` exactly as the reshift tests of
     its update calls do -/
 theorem policyUpdate_totalShift (p : Params) (plain : Array Nat) (c : Chain) (pos len : Nat) :
     (policyUpdate p plain c pos len).totalShift = shiftAfter c.totalShift (updateCalls p pos len) := by
-  sorry
+  unfold policyUpdate updateCalls
+  by_cases h0 : p.hashAlg = 0
+  · simp [h0, shiftAfter]
+  by_cases h1 : len = 1
+  · simp [h0, h1, shiftAfter, update_totalShift]
+  simp only [h0, h1, if_false]
+  generalize p.addPolicy = a
+  match a with
+  | 0 => simp [shiftAfter, update_totalShift]
+  | 1 => by_cases hl : len ≤ p.addLimit <;> simp [hl, shiftAfter, update_totalShift]
+  | 2 => by_cases hl : len ≤ p.addLimit <;> simp [hl, shiftAfter, update_totalShift]
+  | 3 => by_cases hl : (pos &&& 4095) < 4093 <;> simp [hl, shiftAfter, update_totalShift]
+  | n + 4 => by_cases hl : is32kBoundary len pos <;> simp [hl, shiftAfter, update_totalShift]
 
-/-- For every parameter vector, every sequence of token lengths 1..258 starting at position 0 with
-    the initial shift -8: no `from_absolute` and no `inc` ever leaves the u16 range. For the
-    4 KiB-boundary policy the estimator's own side condition is needed (no reference starts in the
-    last three positions of a 4 KiB page). -/
-theorem chain_positions_in_u16 (p : Params) (lens : List Nat)
+/-- invariant at token starts: the internal position is at most one maximal token past the reshift
+    threshold (0xfe08 + 257) -/
+def ChainInv (shift : Int) (pos : Nat) : Prop :=
+  0 ≤ (pos : Int) - shift ∧ (pos : Int) - shift ≤ 65289
+
+/-- with a hash algorithm and (for the 4 KiB policy) the estimator's side condition, every token
+    makes an update call at its start position, of one of three shapes -/
+theorem updateCalls_shape (p : Params) (hh : p.hashAlg ≠ 0) (pos len : Nat)
+    (h4k : p.addPolicy = 3 → len ≠ 1 → (pos &&& 4095) < 4093) :
+    updateCalls p pos len = [(pos, 1)] ∨ updateCalls p pos len = [(pos, len)] ∨
+    updateCalls p pos len = [(pos, 1), (pos + len - 1, 1)] := by
+  unfold updateCalls
+  by_cases h1 : len = 1
+  · simp [hh, h1]
+  simp only [hh, h1, if_false]
+  revert h4k
+  generalize p.addPolicy = a
+  intro h4k
+  match a with
+  | 0 => simp
+  | 1 => by_cases hl : len ≤ p.addLimit <;> simp [hl]
+  | 2 => by_cases hl : len ≤ p.addLimit <;> simp [hl]
+  | 3 =>
+    have : (pos &&& 4095) < 4093 := h4k rfl h1
+    simp [this]
+  | n + 4 => by_cases hl : is32kBoundary len pos <;> simp [hl]
+
+theorem shiftStep_cases (s : Int) (q : Nat) :
+    (shiftStep s q = s + 32256 ∧ (q : Int) - s ≥ 65032) ∨ (shiftStep s q = s ∧ (q : Int) - s < 65032) := by
+  unfold shiftStep
+  by_cases h : (q : Int) - s ≥ 0xfe08
+  · left; rw [if_pos h]; exact ⟨rfl, by omega⟩
+  · right; rw [if_neg h]; exact ⟨rfl, by omega⟩
+
+theorem chain_step_safe (p : Params) (hh : p.hashAlg ≠ 0) (shift : Int) (pos len : Nat)
+    (hinv : ChainInv shift pos) (hl : 1 ≤ len ∧ len ≤ 258)
+    (h4k : p.addPolicy = 3 → len > 1 → (pos &&& 4095) < 4093) :
+    IterSafe shift pos ∧ CallsSafe shift (updateCalls p pos len) ∧
+    ChainInv (shiftAfter shift (updateCalls p pos len)) (pos + len) := by
+  obtain ⟨hi0, hi1⟩ := hinv
+  obtain ⟨hl0, hl1⟩ := hl
+  refine ⟨⟨hi0, by omega⟩, ?_⟩
+  rcases updateCalls_shape p hh pos len (fun h3 hn => h4k h3 (by omega)) with h | h | h <;> rw [h]
+  · simp only [CallsSafe, CallSafe, shiftAfter, List.foldl, ChainInv, and_true]
+    rcases shiftStep_cases shift pos with ⟨e, hc⟩ | ⟨e, hc⟩ <;> rw [e] <;> omega
+  · simp only [CallsSafe, CallSafe, shiftAfter, List.foldl, ChainInv, and_true]
+    rcases shiftStep_cases shift pos with ⟨e, hc⟩ | ⟨e, hc⟩ <;> rw [e] <;> omega
+  · simp only [CallsSafe, CallSafe, shiftAfter, List.foldl, ChainInv, and_true]
+    rcases shiftStep_cases shift pos with ⟨e, hc⟩ | ⟨e, hc⟩ <;> rw [e] <;>
+      rcases shiftStep_cases (shiftStep shift pos) (pos + len - 1) with ⟨e', hc'⟩ | ⟨e', hc'⟩ <;>
+      rw [e] at e' hc' <;> rw [e'] <;> omega
+
+theorem chain_run_safe (p : Params) (hh : p.hashAlg ≠ 0) (lens : List Nat) :
+    ∀ (shift : Int) (pos : Nat), ChainInv shift pos →
+      (∀ l ∈ lens, 1 ≤ l ∧ l ≤ 258) → (p.addPolicy = 3 → NoRefAt4k pos lens) →
+      RunSafe p shift pos lens := by
+  induction lens with
+  | nil => intros; trivial
+  | cons len rest ih =>
+    intro shift pos hinv hl h4k
+    have hs := chain_step_safe p hh shift pos len hinv (hl len (by simp))
+      (fun h3 => (h4k h3).1)
+    exact ⟨hs.1, hs.2.1, ih _ _ hs.2.2 (fun l hm => hl l (by simp [hm]))
+      (fun h3 => (h4k h3).2)⟩
+
+/-- For every parameter vector with a hash algorithm (`HashAlgorithm::None` never touches a chain),
+    every sequence of token lengths 1..258 starting at position 0 with the initial shift -8: no
+    `from_absolute` and no `inc` ever leaves the u16 range. For the 4 KiB-boundary policy the
+    estimator's own side condition is needed (no reference starts in the last three positions of a
+    4 KiB page). -/
+theorem chain_positions_in_u16_partial (p : Params) (hh : p.hashAlg ≠ 0) (lens : List Nat)
     (hl : ∀ l ∈ lens, 1 ≤ l ∧ l ≤ 258)
     (h4k : p.addPolicy = 3 → NoRefAt4k 0 lens) :
-    RunSafe p (-8) 0 lens := by
-  sorry
+    RunSafe p (-8) 0 lens :=
+  chain_run_safe p hh lens (-8) 0 (by unfold ChainInv; omega) hl h4k
+
+/-- without a hash algorithm no update call (hence no reshift test) is ever made -/
+theorem runSafe_noHash_iter (p : Params) (h0 : p.hashAlg = 0) (n : Nat) :
+    ∀ (shift : Int) (pos : Nat), RunSafe p shift pos (List.replicate (n + 1) 258) →
+      IterSafe shift (pos + 258 * n) := by
+  induction n with
+  | zero => intro shift pos h; exact h.1
+  | succ n ih =>
+    intro shift pos h
+    have h' := h.2.2
+    have e : updateCalls p pos 258 = [] := by simp [updateCalls, h0]
+    rw [e] at h'
+    have := ih _ _ h'
+    simp only [shiftAfter, List.foldl] at this
+    have e2 : pos + 258 + 258 * n = pos + 258 * (n + 1) := by omega
+    rwa [e2] at this
+
+/-- the hypothesis `p.hashAlg ≠ 0` of `chain_positions_in_u16_partial` cannot be dropped: for
+    `HashAlgorithm::None` the abstract run leaves the u16 range at the 255th maximal token (position
+    65532 with the shift still -8). In the Rust this holder never iterates or updates a chain. -/
+theorem runSafe_fails_without_hash (p : Params) (h0 : p.hashAlg = 0) :
+    ¬ RunSafe p (-8) 0 (List.replicate 255 258) := by
+  intro h
+  have := runSafe_noHash_iter p h0 254 (-8) 0 h
+  unfold IterSafe at this
+  omega
+
+/-- the statement without `p.hashAlg ≠ 0` is false (witness: hashAlg = 0, addPolicy = 0, 255 tokens
+    of length 258) -/
+theorem chain_positions_in_u16_unrestricted_false :
+    ¬ ∀ (p : Params) (lens : List Nat), (∀ l ∈ lens, 1 ≤ l ∧ l ≤ 258) →
+        (p.addPolicy = 3 → NoRefAt4k 0 lens) → RunSafe p (-8) 0 lens := by
+  intro h
+  let p : Params := { (default : Params) with hashAlg := 0, addPolicy := 0 }
+  exact runSafe_fails_without_hash p rfl
+    (h p (List.replicate 255 258) (fun l hm => by rw [List.eq_of_mem_replicate hm]; omega)
+      (fun h3 => absurd h3 (by decide)))
 
 end Preflate.Proofs
